@@ -173,7 +173,7 @@ def run(tier, seed, replay=None):
         tx = texts[(s["feat"], q)]
         rj = dict(s, payload=s["payload"].hex())
         if "PANIC" in oi or oi.startswith("CRASH"):
-            rep.fail("C02: dispatch panicked", {"kind": "failing-input", "scenarios": [rj], "observed": oi})
+            rep.fail("C02: dispatch %s" % ("hung: no answer for 90 s (a lock taken twice, or a wait nobody ends)" if "hang" in oi else "panicked"), {"kind": "failing-input", "scenarios": [rj], "observed": oi})
             continue
         # expected decision from the filters' own truth values
         verdicts, loadable = [], True
